@@ -186,7 +186,13 @@ def pool(n: int = 14):
 def shutdown_pool():
     global _POOL  # pylint: disable=global-statement
     if _POOL is not None:
+        procs = list(getattr(_POOL, "_processes", {}).values())
         _POOL.shutdown(wait=False, cancel_futures=True)
+        for p in procs:  # a worker that is stuck in a hung pass must not outlive the check
+            try:
+                p.kill()
+            except Exception:  # pylint: disable=broad-except
+                pass
         _POOL = None
 
 
